@@ -8,9 +8,7 @@ Example config_census :
   CFG_PART_TEST = CFG_SINGLE_TEST /\ CFG_VISIT_F64 = 2 /\ CFG_FROM_SECONDS_CALLS = 4.
 Proof. repeat split. Qed.
 
-(* a configured number that may become a threshold: not NaN, not infinite, not below zero *)
-Definition good_number (f : float) : Prop :=
-  f64_is_nan f = false /\ f64_is_infinite f = false /\ f64_lt0 f = false.
+(* good_number f (Base/D3FloatFacts.v): f is not NaN, not infinite, not below zero *)
 
 Lemma bad_threshold_false f : bad_threshold f = false <-> good_number f.
 Proof.
@@ -283,4 +281,22 @@ Proof.
   - apply duration_no_panic.
   - apply accumulated_no_panic.
   - apply load_sync_no_panic.
+Qed.
+
+(* the converted thresholds are non-negative durations *)
+Lemma duration_nonneg f :
+  f64_is_nan f = false -> f64_is_infinite f = false -> f64_lt0 f = false -> 0 <= from_seconds f.
+Proof. intros N I L. apply from_seconds_nonneg. repeat split; assumption. Qed.
+
+Lemma good_part_nonneg o d : good_part o -> o = Some d -> 0 <= d.
+Proof.
+  intros [-> | (f & G & ->)] E; [discriminate|]. inversion E; subst. apply from_seconds_nonneg, G.
+Qed.
+
+Lemma thresholds_nonneg dbg v st :
+  step_threshold_of dbg v = Ok st ->
+  (forall d, st_forward st = Some d -> 0 <= d) /\ (forall d, st_backward st = Some d -> 0 <= d).
+Proof.
+  intros H. destruct (step_threshold_good _ _ _ H) as [F B].
+  split; intros d E; [exact (good_part_nonneg _ _ F E) | exact (good_part_nonneg _ _ B E)].
 Qed.
